@@ -138,6 +138,41 @@ def shipped():
     return out
 
 
+def interface_family(tier='quick'):
+    """(name, text, valid) - three schemas in one file: src declares, mid interfaces from src (completely / one item / one item renamed), top interfaces
+    from mid (completely / by the exported name) and uses the item as an attribute type, as a supertype and (an enumeration item) in a WHERE rule;
+    optionally src USEs top again (a cycle).  Every assignment of the roles to three schema names (the tools walk schemas in hash order).  Invalid
+    twins: top asks mid for the name the item had BEFORE it was renamed."""
+    import itertools
+    out = []
+    namesets = [('assembly_s', 'catalog_s', 'parts_s')] + ([('s1', 's2', 's3'), ('zeta', 'alpha', 'mid')] if tier == 'thorough' else [])
+    k = 0
+    for names in namesets:
+        for src, mid, top in itertools.permutations(names):
+            for mid_link in ('all', 'item', 'renamed'):
+                exported = 'gadget' if mid_link == 'renamed' else 'widget'
+                for top_link, top_kw in (('all', 'USE'), ('item', 'USE'), ('item', 'REFERENCE')):
+                    for cyc in ((False, True) if (mid_link == 'all' and top_link == 'all') else (False,)):
+                        k += 1
+                        t = 'SCHEMA %s;\n' % src
+                        if cyc:
+                            t += 'USE FROM %s;\n' % top
+                        t += 'TYPE shade = ENUMERATION OF (light, dark); END_TYPE;\nENTITY widget; size : INTEGER; tone : shade; END_ENTITY;\nEND_SCHEMA;\n'
+                        t += 'SCHEMA %s;\n' % mid
+                        t += {'all': 'USE FROM %s;\n' % src, 'item': 'USE FROM %s (widget, shade);\n' % src, 'renamed': 'USE FROM %s (widget AS gadget, shade);\n' % src}[mid_link]
+                        t += 'ENTITY holder; h : %s; END_ENTITY;\nEND_SCHEMA;\n' % exported
+                        t += 'SCHEMA %s;\n' % top
+                        t += ('USE FROM %s;\n' % mid) if top_link == 'all' else ('%s FROM %s (%s, shade);\n' % (top_kw, mid, exported))
+                        body = 'TYPE lvl = ENUMERATION OF (low, high); END_TYPE;\nENTITY top_e; w : %s; t : shade; g : lvl;\n WHERE\n  wr1 : (w.size > 0) AND (g <> high);\nEND_ENTITY;\n' % exported
+                        if top_kw == 'USE':
+                            body += 'ENTITY sub_e SUBTYPE OF (%s); extra : INTEGER; END_ENTITY;\n' % exported
+                        out.append(('if_%d_%s_%s%s%s' % (k, mid_link, top_kw.lower(), top_link, '_cyc' if cyc else ''), t + body + 'END_SCHEMA;\n', True))
+                        if mid_link == 'renamed' and top_link == 'item':
+                            bad = t.replace('%s FROM %s (gadget, shade);' % (top_kw, mid), '%s FROM %s (widget, shade);' % (top_kw, mid)) + body.replace('gadget', 'widget') + 'END_SCHEMA;\n'
+                            out.append(('if_%d_old_name_%s' % (k, top_kw.lower()), bad, False))
+    return out
+
+
 def valid_schemas(tier='quick', with_models=True):
     """[(name, text)] - single files; valid by construction"""
     out = [('ks', KS), ('multi', MULTI)]
@@ -313,6 +348,26 @@ def semantic_mutants(name, text, max_pos=4):
     yield ('subtype-missing-supertype', 'oneof', 'zq_sub', ins('ENTITY zq_sup SUPERTYPE OF (ONEOF (zq_sub, zq_sub2)); END_ENTITY;\nENTITY zq_sub; END_ENTITY;\nENTITY zq_sub2 SUBTYPE OF (zq_sup); END_ENTITY;\n'))
     # 11 inherited attribute re-declared
     yield ('inherited-attribute-redeclared', 'same-name', 'zq_attr', ins('ENTITY zq_p; zq_attr : INTEGER; END_ENTITY;\nENTITY zq_c SUBTYPE OF (zq_p); zq_attr : REAL; END_ENTITY;\n'))
+    # 11b ... at every distance and through every path: the clashing attribute is declared 1-3 levels up, by the first or by a later supertype, or on
+    # both arms of a diamond's top
+    chain = lambda names: ''.join('ENTITY %s%s; %s END_ENTITY;\n' % (n, (' SUBTYPE OF (%s)' % ', '.join(sup)) if sup else '', body) for n, sup, body in names)
+    for dist in (1, 2, 3):
+        lv = [('zq_l0', [], 'zq_attr : INTEGER;')] + [('zq_l%d' % k, ['zq_l%d' % (k - 1)], 'f%d : INTEGER;' % k) for k in range(1, dist)]
+        lv.append(('zq_bottom', ['zq_l%d' % (dist - 1)], 'zq_attr : REAL;'))
+        yield ('inherited-attribute-redeclared', 'chain-distance-%d' % dist, 'zq_attr', ins(chain(lv)))
+    yield ('inherited-attribute-redeclared', 'via-second-supertype', 'zq_attr',
+           ins(chain([('zq_a', [], 'fa : INTEGER;'), ('zq_b0', [], 'zq_attr : INTEGER;'), ('zq_b', ['zq_b0'], 'fb : INTEGER;'), ('zq_bottom', ['zq_a', 'zq_b'], 'zq_attr : REAL;')])))
+    yield ('inherited-attribute-redeclared', 'diamond-top', 'zq_attr',
+           ins(chain([('zq_t', [], 'zq_attr : INTEGER;'), ('zq_a', ['zq_t'], 'fa : INTEGER;'), ('zq_b', ['zq_t'], 'fb : INTEGER;'), ('zq_bottom', ['zq_a', 'zq_b'], 'zq_attr : REAL;')])))
+    # 9b select cycles whose members include entities, with an attribute reference through a value of the cyclic type
+    for n in (1, 2, 3):
+        for order in ('select-first', 'entity-first'):
+            for ref in range(1, n + 1):
+                mem = (lambda k: 'zq_sc%d, zq_se%d' % ((k % n) + 1, k)) if order == 'select-first' else (lambda k: 'zq_se%d, zq_sc%d' % (k, (k % n) + 1))
+                decl = ''.join('ENTITY zq_se%d; zq_w%d : INTEGER; END_ENTITY;\n' % (k, k) for k in range(1, n + 1))
+                decl += ''.join('TYPE zq_sc%d = SELECT (%s); END_TYPE;\n' % (k, mem(k)) for k in range(1, n + 1))
+                decl += 'ENTITY zq_user; zq_s : zq_sc1;\n DERIVE\n  zq_d : INTEGER := zq_s.zq_w%d;\nEND_ENTITY;\n' % ref
+                yield ('select-cycle', 'with-entity-members-len%d-%s-dot%d' % (n, order, ref), 'zq_sc1', ins(decl))
     # 12 bad INVERSE
     yield ('bad-inverse', 'names-missing-attribute', 'zq_nosuch', ins('ENTITY zq_o;\n INVERSE\n  back : SET [0:?] OF zq_i FOR zq_nosuch;\nEND_ENTITY;\nENTITY zq_i; own : zq_o; END_ENTITY;\n'))
     yield ('bad-inverse', 'names-non-entity', 'zq_ty', ins('TYPE zq_ty = INTEGER; END_TYPE;\nENTITY zq_o;\n INVERSE\n  back : SET [0:?] OF zq_ty FOR own;\nEND_ENTITY;\n'))
